@@ -206,7 +206,13 @@ def _check(items, ctx, tier):
             if not isinstance(err, (FFIError, cffi.CDefError)):
                 ctx.fail('in-line typeof(%r) raised %s: %s' % (s, type(err).__name__, err), case={'names': [s]})
             ctx.event('rejected-by-in-line-FFI (outside the domain)')
-            # the other parser is not judged on names outside the domain (C07 compares the parsers)
+            # a spelling of specifier keywords that the in-line FFI rejects must not be a primitive
+            # name for the C backend's typeof() either (it would be a name "accepted by typeof()"
+            # for which the compiler reports nothing)
+            t2, err2 = _accepts(lambda: _cffi_backend.FFI().typeof(s))
+            if err2 is None:
+                ctx.fail('%r is rejected by the in-line FFI (%s) but the C backend typeof() accepts it as %r'
+                         % (s, err, t2), case={'names': [s]})
             continue
         accepted.append(it)
         l1[s] = t
@@ -354,5 +360,30 @@ def pre(ctx):
     if sorted(cffi_opcode.PRIMITIVE_TO_INDEX.values()) != list(range(1, cffi_opcode._NUM_PRIM)):
         ctx.fail('PRIMITIVE_TO_INDEX does not cover the indices 1..%d exactly once' % (cffi_opcode._NUM_PRIM - 1),
                  case={'names': []})
+    # every sequence of 1-4 specifier keywords that the C backend's typeof() accepts must be a name the
+    # in-line FFI accepts too, for the same ctype (a name only the C parser knows would be "accepted by
+    # typeof()" without the compiler or the other tables knowing it)
+    import itertools, cffi, _cffi_backend
+    bare, inl = _cffi_backend.FFI(), cffi.FFI()
+    words = ['signed', 'unsigned', 'short', 'long', 'int', 'char', 'double', 'float']
+    nseq = nacc = 0
+    for n in range(1, 5):
+        for seq in itertools.product(words, repeat=n):
+            s = ' '.join(seq)
+            nseq += 1
+            try:
+                t = bare.typeof(s)
+            except Exception:
+                continue
+            nacc += 1
+            try:
+                t1 = inl.typeof(s)
+            except Exception as e:
+                ctx.fail('%r is accepted by the C backend typeof() as %r but rejected by the in-line FFI (%s: %s)'
+                         % (s, t, type(e).__name__, e), case={'names': [s]})
+            if t1 is not t:
+                ctx.fail('%r: C backend typeof() gives %r, the in-line FFI %r' % (s, t, t1), case={'names': [s]})
+    ctx.extra['specifier_sequences_enumerated'] = nseq
+    ctx.extra['specifier_sequences_accepted_by_c_parser'] = nacc
     ctx.extra['exhaustive'] = True
     ctx.extra['spellings_enumerated'] = len(items)
